@@ -36,6 +36,25 @@ static void omp_case(int kind) {
   }
 }
 
+/* elimination whose (last) block holds t*k - d pivots: the parallel row loop of EACH of the six mzd_process_rowsN variants
+ * runs over more than 512 rows (static chunks on several threads) */
+static void omp_elim_tables_case(int t, int k, int lead) {
+  vh_ev_t e;
+  int n = lead + t * k - vh_randint(0, 1), m = vh_pick((int[]){600, 1100, 1300}, 3);
+  if (n < 1) n = 1;
+  mzd_t *A = vh_new(m, n);
+  vh_fill_dense(A);
+  int full = vh_randint(0, 1);
+  vh_begin(&e, "echelonize_m4ri");
+  vh_pi(&e, "full", full); vh_pi(&e, "k", k); vh_pi(&e, "heur", 0); vh_pi(&e, "thr", 0);
+  vh_opnd(&e, "A", 'b', A);
+  vh_pre(&e);
+  if (VH_CALL(&e)) e.ret = mzd_echelonize_m4ri(A, full, k);
+  VH_END(&e);
+  vh_post(&e);
+  vh_free_all();
+}
+
 int fam_omp(const vh_args_t *a) {
   int ncases = a->cases ? a->cases : (a->tier ? 240 : 48);
   for (long idx = 0; idx < ncases; idx++) {
@@ -45,5 +64,14 @@ int fam_omp(const vh_args_t *a) {
     omp_case((int)(idx % 6));
     VH_CASE_END
   }
+  long sidx = ncases;
+  for (int rep = 0; rep < (a->tier ? 4 : 1); rep++)
+    for (int t = 1; t <= 6; t++, sidx++) {
+      if (!VH_SHARD(a, sidx)) continue;
+      vh_case_seed(a, sidx);
+      VH_CASE(sidx)
+      omp_elim_tables_case(t, vh_pick((int[]){3, 4, 5, 7, 8}, 5), vh_pick((int[]){0, 0, 60, 128}, 4));
+      VH_CASE_END
+    }
   return 0;
 }
